@@ -290,3 +290,22 @@ def check(ctx):
                 ctx.fail("oracle", "C07/oracle/cutoff-dict", f"{sc['name']}: a cutoff given for order 3 only changed the order-2 basis", replay={"cell": sc["name"], "cutoff": {"3": c3}}, has_input=True)
         except (IndexError, ValueError):
             pass
+        # ... and the other way round, in ONE call over several orders: a cutoff given for order 2 only leaves order 3 (and 4) as
+        # without any cutoff, and the order-2 basis is the one of a single-order call with that cutoff
+        try:
+            if N ** 3 * 27 <= 300000:
+                o = Symfc(at, cutoff={2: c3}).compute_basis_set(orders=[2, 3])
+                ctx.case({"cell": sc["name"], "cutoff_dict": {"2": c3}, "orders": [2, 3]}, nontrivial=True)
+                ctx.count("api-cutoff-lower-order-only")
+                P3, n3 = span_proj(o.basis_set[3])
+                Pf3, nf3 = span_proj(Symfc(at).compute_basis_set(orders=[3]).basis_set[3])
+                if n3 != nf3 or not same_span(P3, Pf3)[0]:
+                    ctx.fail("oracle", "C07/oracle/cutoff-dict", f"{sc['name']}: cutoff {{2: {c3:.4f}}} with orders [2, 3] in one call: the order-3 basis has {n3} vectors, without any cutoff it has {nf3} (a cutoff given for order 2 only must not touch order 3)",
+                             replay={"cell": sc["name"], "lattice": sc["lattice"].tolist(), "positions": sc["positions"].tolist(), "numbers": [int(x) for x in sc["numbers"]], "cutoff": {"2": c3}, "orders": [2, 3]}, has_input=True)
+                P2b, n2b = span_proj(o.basis_set[2])
+                P2s, n2s = span_proj(Symfc(at, cutoff={2: c3}).compute_basis_set(orders=[2]).basis_set[2])
+                if n2b != n2s or not same_span(P2b, P2s)[0]:
+                    ctx.fail("oracle", "C07/oracle/cutoff-dict", f"{sc['name']}: cutoff {{2: {c3:.4f}}}: the order-2 basis of a call over orders [2, 3] differs from the one of a call over [2]",
+                             replay={"cell": sc["name"], "cutoff": {"2": c3}, "orders": [2, 3]}, has_input=True)
+        except (IndexError, ValueError):
+            pass
